@@ -253,6 +253,9 @@ mod chordal_hooks {
         pub fn state(&self) -> (Vec<usize>, Vec<usize>) {
             self.0.verif_state()
         }
+        pub fn from_state(parents: Vec<usize>, ranks: Vec<usize>) -> Self {
+            Self(DisjointSetUnion::verif_from_state(parents, ranks))
+        }
     }
 
     /// a live ChordalInfo, as the problem-data constructor builds it
